@@ -31,13 +31,20 @@ ENUM_CONVERTERS = ['cnv_configtype', 'cnv_data_source_has_labels', 'cnv_draw_asp
 XMLNS_URI = u'http://www.w3.org/XML/1998/namespace'
 VIEWBOX_TYPE = re.compile(r'[ \t\n\r]*[+-]?[0-9]+([ \t\n\r]+[+-]?[0-9]+){3}[ \t\n\r]*')   # list of four xsd:integer
 
+# NCNames using the NameChar classes of XML 1.0 (5th edition) beyond letters and digits: U+00B7 MIDDLE DOT, combining
+# marks U+0300-U+036F, U+203F/U+2040, scripts whose vowel signs are combining characters (Devanagari, Thai, Tamil),
+# letters outside the BMP.  Python's \w does not match most of these although they are legal in a name.
+NAME_SAMPLES = [u'Paral\u00b7lel',
+                u'a\u0300\u036f\u203f\u2040\u0915\u093e\u0e01\u0e34\U00010400\U00020000',
+                u'\u0915\u093f\u0924\u093e\u092c', u'\u0e01\u0e34\u0e48\u0e07', u'\u0ba4\u0bae\u0bbf\u0bb4\u0bcd',
+                u'\U00010400\U0001D49C\U00020000x', u'x\u00b7\u0301', u'_\u203f\u2040_']
 XSD_SAMPLES = {
     'string': [u'', u'x', u'My Shape 1', u'a:b', u' padded ', u'Zoë 中文 \U0001F600', u'<&>"\'', u'tab\there'],
     'token': [u'x', u'two words'],
-    'NCName': [u'a', u'Abc_1-2.x', u'élève', u'_x'],
-    'ID': [u'id1', u'_a.b-c'],
-    'IDREF': [u'id1', u'réf'],
-    'IDREFS': [u'id1', u'id1 id2'],
+    'NCName': NAME_SAMPLES + [u'a', u'Abc_1-2.x', u'élève', u'_x'],
+    'ID': NAME_SAMPLES + [u'id1', u'_a.b-c'],
+    'IDREF': NAME_SAMPLES + [u'id1', u'réf'],
+    'IDREFS': [u'id1', NAME_SAMPLES[0] + u' ' + NAME_SAMPLES[1], u'id1 id2'],
     'QName': [u'chart:bar', u'bar', u'é:ü', u'a.b:c-d_e'],
     'anyURI': [u'', u'http://example.org/a?b=c#d', u'../rel/path x', u'#frag'],
     'date': [u'2024-02-29', u'2024-01-01Z', u'-0044-03-15'],
@@ -57,7 +64,7 @@ GENERIC = [u'', u' ', u'true', u'TRUE', u'True', u'fAlSe', u'yes', u'No', u'0', 
            u'en', u'en-US', u'en-US!!', u'toolonglang', u'chart:bar', u'chart:bar junk', u'bar', u':', u'a:', u'a:b:c',
            u'My Shape 1', u'a b', u'a:b c', u'::', u'ab', u'a', u'P1 P2', u'simple', u'simple ', u'none', u'new', u'embed',
            u'selection-indexes', u'selection-indices', u'standard', u'double-sided', u'paragraph', u'Paragraph', u'row',
-           u'é:x', u'xé', u'\U0001F600', u'a\tb', u'line\nbreak', u'#ff00FF', u'(1 2 3)']
+           u'é:x', u'xé', u'\U0001F600'] + NAME_SAMPLES + [ u'a\tb', u'line\nbreak', u'#ff00FF', u'(1 2 3)']
 
 
 # ---------------------------------------------------------------------- values of a datatype
